@@ -104,5 +104,15 @@ bool h_named(const std::string &name, Case &c) {
     hwloc_bitmap_t s = hwloc_bitmap_alloc(); hwloc_bitmap_list_sscanf(s, "0-6,8-10,12-15"); int r = hwloc_topology_restrict(t, s, 0); hwloc_bitmap_free(s);
     CHECK(c, r == 0, "named_setup", "restrict returned %d", r); require_wf(c, t, "after restrict"); hwloc_topology_destroy(t); return true;
   }
+  if (name == "F-C08-b") {   // restrict by nodeset left a childless CPU-less Core (removed by an XML reload)
+    c.desc("pack:2 core:2 [numa] pu:1; restrict(cpuset {0-1}) keeps the CPU-less Cores of Package 1 (they own NUMA nodes); restrict(BYNODESET {0,1}) removes their nodes");
+    hwloc_topology_t t; hwloc_topology_init(&t); hwloc_topology_set_synthetic(t, "pack:2 [numa] core:2 [numa] pu:1"); CHECK(c, hwloc_topology_load(t) == 0, "named_setup", "load failed");
+    hwloc_bitmap_t s = hwloc_bitmap_alloc(); hwloc_bitmap_list_sscanf(s, "0-1"); CHECK(c, hwloc_topology_restrict(t, s, 0) == 0, "named_setup", "first restrict failed");
+    // keep Package 1's own node and the nodes of the surviving cores; drop the nodes local to the CPU-less cores
+    hwloc_bitmap_zero(s); for (hwloc_obj_t n = NULL; (n = hwloc_get_next_obj_by_type(t, HWLOC_OBJ_NUMANODE, n));) if (!(hwloc_bitmap_iszero(n->cpuset) && n->parent->type == HWLOC_OBJ_CORE)) hwloc_bitmap_set(s, n->os_index);
+    CHECK(c, hwloc_topology_restrict(t, s, HWLOC_RESTRICT_FLAG_BYNODESET) == 0, "named_setup", "second restrict failed"); hwloc_bitmap_free(s); require_wf(c, t, "after restricts");
+    for (auto o : all_objs(t)) if (is_normal(o->type) && o->type != HWLOC_OBJ_PU) CHECK(c, o->first_child || o->memory_first_child, "normal_childless", "%s gp%llu is left without PU and without NUMA node below it", hwloc_obj_type_string(o->type), (unsigned long long)o->gp_index);
+    hwloc_topology_destroy(t); return true;
+  }
   return false;
 }
